@@ -89,7 +89,7 @@ impl Property for C18 {
             real: &["src/entry.rs: ReloadId, AtomicReloadId (real std atomics)"],
             stub: &["OS scheduler (detsim baton; scheduling points in front of every atomic operation, hook H5)"],
             assumptions: &["Engine A is sequentially consistent and an atomic RMW is indivisible; weak-memory effects and non-atomic replacements are covered by the Miri engine (miri/ c18)"],
-            runs: (60_000, 3_000_000),
+            runs: (350_000, 10_000_000),
         }
     }
     fn generate(&self, g: &mut SplitMix, k: &mut SplitMix, _tier: Tier) -> (Knobs, Value) {
